@@ -19,7 +19,7 @@ from engine import tlc
 
 SPEC = "OrmQuery"
 # every constant of OrmQuery.tla with a neutral value; plans override what they vary
-BASE = dict(NP=3, NC=3, NG=2, MaxV=2, K=1, NQ=1, Roots='{"P", "C"}', GridSel='"all"', GridKeep=100, NH=4, Mixed=False)
+BASE = dict(NP=3, NC=3, NG=2, MaxV=2, K=1, NQ=1, Roots='{"P", "C"}', GridSel='"all"', GridKeep=100, GridKeepF=100, NH=4, Mixed=False)
 
 
 def scale():
@@ -571,7 +571,7 @@ class Hier:
         for c in self.cls:
             classes[c] = type(c, (classes[par[c]] if c != "A" else object,), {})
         reg.map_imperatively(H, self.h, properties=dict(
-            items=orm.relationship(classes["A"], order_by=tables["A"].c.id, back_populates="holder")))
+            items=orm.relationship(classes["A"], order_by=tables["A"].c.id.desc(), back_populates="holder")))
         for c in self.cls:
             foreign = [HATTR[d] for d in self.cls if d not in self.anc[c]]      # columns of the shared table that belong to other classes
             kw = {}
